@@ -206,6 +206,15 @@ func (r *Run) Finish() int {
 }
 
 func (r *Run) writeEvidence(counts map[string]int, discharged, nontrivial int, failed, knownHit []Obligation) {
+	if r.Assumptions == nil {
+		r.Assumptions = []string{}
+	}
+	if r.Trusted == nil {
+		r.Trusted = []string{}
+	}
+	if r.Undecided == nil {
+		r.Undecided = []string{}
+	}
 	rng := rand.New(rand.NewSource(r.Seed))
 	var samples []any
 	for _, o := range failed {
